@@ -428,6 +428,20 @@ fn shell_cases() -> Vec<(String, Vec<String>)> {
     add("p='*'; case abc in ($p) p yes;; (*) p no;; esac".into(), &["yes:0"]);
     add("p='*'; case abc in (\"$p\") p yes;; (*) p no;; esac".into(), &["no:0"]);
     add("p='a*'; x=aXbXc; args \"${x#$p}\" \"${x##$p}\" \"${x#\"$p\"}\"".into(), &["args[XbXc][][aXbXc]"]);
+    // a backslash that comes out of an unquoted expansion escapes the next character of the pattern
+    // (XCU 2.13.1), in `case` and in all four trims alike
+    for c in ['*', '?', '[', '\\', 'a'] {
+        let y = format!("y='\\{c}'");
+        let lit = if c == '\\' { "'\\'".to_string() } else { format!("'{c}'") };
+        add(format!("{y}; case {lit} in ($y) p yes;; (*) p no;; esac"), &["yes:0"]);
+        if c != 'a' {
+            add(format!("{y}; case x in ($y) p yes;; (*) p no;; esac"), &["no:0"]);
+            add(format!("{y}; w=xx; args \"${{w#$y}}\" \"${{w##$y}}\" \"${{w%$y}}\" \"${{w%%$y}}\""), &["args[xx][xx][xx][xx]"]);
+        }
+        let w = if c == '\\' { "'\\Z\\'".to_string() } else { format!("'{c}Z{c}'") };
+        add(format!("{y}; w={w}; args \"${{w#$y}}\" \"${{w##$y}}\" \"${{w%$y}}\" \"${{w%%$y}}\""), &[&format!("args[Z{c}][Z{c}][{c}Z][{c}Z]")]);
+        add(format!("{y}; w={w}; args \"${{w#$y*}}\" \"${{w%%Z$y}}\" \"${{w##*$y}}\""), &[&format!("args[Z{c}][{c}][]")]);
+    }
     // shortest / longest prefix / suffix
     add("x=aXbXc; args \"${x#*X}\" \"${x##*X}\" \"${x%X*}\" \"${x%%X*}\"".into(), &["args[bXc][c][aXb][a]"]);
     add("x=abcabc; args \"${x#a*c}\" \"${x##a*c}\" \"${x%a*c}\" \"${x%%a*c}\"".into(), &["args[abc][][abc][]"]);
